@@ -78,6 +78,7 @@ func (e *Exec) callFunction(st *State, fr *Frame, site ssa.Instruction, fn *ssa.
 	if own {
 		if c, ok := e.db.funcs[name]; ok && !c.Inline && !(c.InlineLit && literalVariadic(fn, args)) {
 			e.usedCtr[name] = true
+			e.pendingBindings = bindings
 			return e.applyContract(st, fr, site, c, fn, args, k)
 		}
 		if len(fn.Blocks) == 0 {
@@ -263,7 +264,7 @@ func (e *Exec) callFuncValue(st *State, fr *Frame, d *Deferred, f *Term, k contF
 
 func (e *Exec) contractVars(c *Contract, fn *ssa.Function, args []Val, pkg *types.Package, ctx *SpecCtx) map[string]*specVar {
 	vs := map[string]*specVar{}
-	if fn != nil && len(fn.Params) > 0 {
+	if fn != nil && len(fn.Params) > 0 && len(c.Params) == 0 {
 		for i, p := range fn.Params {
 			vs[p.Name()] = &specVar{v: args[i], t: p.Type()}
 		}
@@ -314,6 +315,27 @@ func (e *Exec) pkgOf(c *Contract) *types.Package { return e.P.tpkgs[c.Pkg] }
 func (e *Exec) applyContract(st *State, fr *Frame, site ssa.Instruction, c *Contract, fn *ssa.Function, args []Val, k contFn) bool {
 	ctx := e.newSpecCtx(st, e.pkgOf(c), nil)
 	vs := e.contractVars(c, fn, args, ctx.pkg, ctx)
+	if fn != nil && len(fn.FreeVars) > 0 && len(e.pendingBindings) == len(fn.FreeVars) {
+		// closure called through its contract: captured variables by name
+		for i, fv := range fn.FreeVars {
+			pt := fv.Type().Underlying().(*types.Pointer).Elem()
+			b := e.pendingBindings[i]
+			vs[fv.Name()] = &specVar{get: func(c *SpecCtx) (Val, types.Type) { return c.loadAt(b, pt), pt }}
+		}
+	}
+	e.pendingBindings = nil
+	if len(c.Shapes) > 0 {
+		// shape variables of the callee are unknown at an arbitrary call site
+		for _, n := range strings.Fields(strings.Join(c.Shapes, " ")) {
+			vs["has_"+n] = &specVar{v: Const(freshName("has."+n), SBool), t: tBool}
+			if ctor := e.P.funcs["gldap."+n]; ctor != nil && len(ctor.AnonFuncs) == 1 {
+				for _, fv := range ctor.AnonFuncs[0].FreeVars {
+					pt := fv.Type().Underlying().(*types.Pointer).Elem()
+					vs["arg_"+n] = &specVar{v: e.freshVal(st, "arg."+n, pt), t: pt}
+				}
+			}
+		}
+	}
 	ctx.vars = vs
 	cname := c.Name
 	for _, r := range c.Requires {
@@ -408,7 +430,11 @@ func (e *Exec) applyContract(st *State, fr *Frame, site ssa.Instruction, c *Cont
 	// vacuity guard: a callee contract that contradicts the state at the call
 	// site would make everything after the call provable
 	if (len(c.Ensures) > 0 || len(c.Sets) > 0) && !e.sol.Feasible() {
-		e.fail(e.siteName(fr, "VACUITY", site, "post-condition of "+cname+" is inconsistent here | "+e.P.srcLine(site.Pos())), "VACUITY", "assuming the callee's post-condition made the path infeasible")
+		nm := e.siteName(fr, "VACUITY", site, "post-condition of "+cname+" is inconsistent here | "+e.P.srcLine(site.Pos()))
+		e.fail(nm, "VACUITY", "assuming the callee's post-condition made the path infeasible")
+		if o := e.obligs[nm]; o != nil && o.Script == "" {
+			o.Script = e.sol.Script("")
+		}
 	}
 	k(st, res)
 	return false
